@@ -710,6 +710,8 @@ class DatasetProcessor:
                 for k, v in tsc.stats_dict.items():
                     transcript_stat_counter.stats_dict[k] += v
 
+        # merging removes the per-chromosome files: from here on a resumed run has to regenerate them
+        clean_locks(chr_ids, dump_filename, reads_processed_lock_file_name)
         if not self.args.no_model_construction:
             self.merge_transcript_models(sample.prefix, aggregator, chr_ids, gff_printer)
             logger.info("Transcript model file " + gff_printer.model_fname)
